@@ -126,6 +126,23 @@ IsPossibleOrder(S, d) == d >= 0 /\ d <= MaxEdgeOrder(S)
 \* edge_neighborhood(H, n, include_self): one member set per edge of n, in the order of n's memberships
 EdgeNeighborhood(S, n, inclSelf) == {<<e, IF inclSelf THEN S.e2n[e] ELSE S.e2n[e] \ {n}>> : e \in S.n2e[n]}
 
+\* numeric summaries of a statistic given as the sequence d of its (integer) values, exact rationals
+RSumSeq(q) == FoldL(LAMBDA acc, x : RAdd(acc, x), <<0, 1>>, q)
+RECURSIVE IPow(_, _)
+IPow(x, k) == IF k = 0 THEN 1 ELSE x * IPow(x, k - 1)
+RPow(x, k) == <<IPow(x[1], k), IPow(x[2], k)>>
+MeanOf(d) == Rat(SumSeq(d), Len(d))
+RawMoment(d, k) == Rat(SumSeq([j \in DOMAIN d |-> IPow(d[j], k)]), Len(d))
+CentralMoment(d, k) == LET m == MeanOf(d)
+                       IN RDiv(RSumSeq([j \in DOMAIN d |-> RPow(RAdd(<<d[j], 1>>, <<-m[1], m[2]>>), k)]), <<Len(d), 1>>)
+VarianceOf(d) == CentralMoment(d, 2)
+MedianOf(d) == LET q == SortSeq(d, LAMBDA a, b : a < b)  n == Len(d)
+               IN IF n % 2 = 1 THEN <<q[(n + 1) \div 2], 1>> ELSE Rat(q[n \div 2] + q[n \div 2 + 1], 2)
+CountOf(d, v) == Cardinality({j \in DOMAIN d : d[j] = v})
+\* the smallest of the most frequent values
+ModeOf(d) == MinOf({v \in Range(d) : \A w \in Range(d) : CountOf(d, v) >= CountOf(d, w)})
+UniqueCounts(d) == LET u == SortSeqOf(Range(d)) IN <<u, [j \in DOMAIN u |-> CountOf(d, u[j])]>>
+
 \* views restricted to a bunch, and their set algebra: always the network's ids, in the network's
 \* order, restricted to the resulting set; a bunch naming an unknown id is refused
 ViewIds(all, B) == Only(all, B)
